@@ -49,6 +49,7 @@ def run(ctx):
         h = lambda n: "".join(rng.choice(HEXA) for _ in range(n))
         uu.add("-".join([h(8), h(4), h(4), h(4), h(12)]))
     uu = sorted(uu)
+    uu = list(uu)
     bad_uu = [base[:n] for n in range(0, 41) if n != 36] + [base + "0", base + "-"]
     for pos in (8, 13, 18, 23):                              # each hyphen displaced / replaced
         bad_uu.append(base[:pos] + "0" + base[pos + 1:])
@@ -60,6 +61,29 @@ def run(ctx):
                 bad_uu.append(base[:pos] + ch + base[pos + 1:])
     bad_uu += [base[:5] + "\u00e9" + base[6:], base[:34] + "\u00e9", "\u00e9" + base[2:], base[:8] + "\u00e9" + base[10:]]
     bad_uu += amlgen.hostile_variants(base) + amlgen.hostile_variants("AABBCCDD-EEFF-0123-4567-89ABCDEF0123", positions=(0, 8, 9, 13, 14, 23, 24, 35, 36))
+    # the 32 digits cut into five groups of other lengths (a parser that splits at the hyphens and parses each field as a
+    # number accepts them when the values happen to fit: digits 0 and 1 make them fit)
+    import itertools
+    shapes = set()
+    for d in itertools.product((-2, -1, 0, 1, 2), repeat=4):
+        lens = [8 + d[0], 4 - d[0] + d[1], 4 - d[1] + d[2], 4 - d[2] + d[3], 12 - d[3]]
+        if all(x >= 1 for x in lens):
+            shapes.add(tuple(lens))
+    shapes |= {(32 - 4 * k, k, k, k, k) for k in (1, 2, 3)} | {(1, 1, 1, 1, 28), (16, 4, 4, 4, 4), (4, 4, 4, 4, 16), (12, 4, 4, 4, 8)}
+    for lens in sorted(shapes):
+        for fill in ("0", "1", "0f", "a0"):
+            digits = (fill * 32)[:32]
+            parts, k = [], 0
+            for n in lens:
+                parts.append(digits[k:k + n])
+                k += n
+            (uu if lens == (8, 4, 4, 4, 12) else bad_uu).append("-".join(parts))
+    # the string inside brackets, quotes, a URN / radix prefix, surrounded by blanks (both ends at once)
+    for pre, suf in (("{", "}"), ("(", ")"), ("[", "]"), ("<", ">"), ('"', '"'), ("'", "'"), (" ", " "), ("\t", "\n"), ("urn:uuid:", ""),
+                     ("0x", ""), ("{", ""), ("", "}"), ("\ufeff", ""), ("", "\0"), ("\0", "\0")):
+        bad_uu.append(pre + base + suf)
+        bad_ids.append(pre + "PNP0A08" + suf)
+        bad_ids.append(pre + "PNP0A0"[:7 - len(pre) - len(suf)] + suf if len(pre) + len(suf) < 7 else pre + suf)
     progs = []
     for what, lst in (("eisa", ids + bad_ids), ("uuid", uu + bad_uu)):
         for i in range(0, len(lst), 512):
